@@ -28,6 +28,7 @@ func init() { runners["C12"] = runC12 }
 // under that class; the class suppresses O1 only, and only when KNOWN_FINDINGS.txt lists it.
 func runC12(cases string, res *Result) {
 	c12Relibrary(res)
+	c12NamesThatCollide(res)
 	firstKnown := map[string]*Finding{}
 	knownSize := map[string]int{}
 	readCases(cases, func(c Case) {
@@ -332,6 +333,73 @@ func c12Relibrary(res *Result) {
 				res.add(Finding{Kind: "oracle", Where: fmt.Sprintf("c12-relibrary/step %d/forms", i), Case: c, Expected: "one output for the three forms", Observed: want,
 					Detail: "import-as, from and from-as give different output for one macro on a freshly built engine"})
 				return
+			}
+		}
+	}
+}
+
+// c12NamesThatCollide: a parameter that is null and carries the name of a macro stays null (in conditions, tests and
+// defaults, through every call form); an import made by an included template under the name of one of the includer's
+// macros leaves the includer's macro what it was.
+func c12NamesThatCollide(res *Result) {
+	lib := "{% macro label(text) %}<label>{{ text }}</label>{% endmacro %}" +
+		"{% macro field(name, label) %}{% if label %}[has label]{% endif %}{{ name }}|{{ label is null ? 'null' : 'not null' }}|{{ label|default('none') }}|{{ label ? 'T' : 'F' }}{% endmacro %}"
+	forms := []struct{ name, src string }{
+		{"local", lib + "{{ field('n') }}/{{ field('n', null) }}/{{ field('n', 'L') }}"},
+		{"self", lib + "{{ _self.field('n') }}/{{ _self.field('n', null) }}/{{ _self.field('n', 'L') }}"},
+		{"import", "{% import 'lib' as f %}{{ f.field('n') }}/{{ f.field('n', null) }}/{{ f.field('n', 'L') }}"},
+		{"from", "{% from 'lib' import field %}{{ field('n') }}/{{ field('n', null) }}/{{ field('n', 'L') }}"},
+		{"from-alias", "{% from 'lib' import field as g %}{{ g('n') }}/{{ g('n', null) }}/{{ g('n', 'L') }}"},
+		{"from-both", "{% from 'lib' import field, label %}{{ field('n') }}/{{ field('n', null) }}/{{ field('n', 'L') }}"},
+	}
+	const want = "n|null|none|F/n|null|none|F/[has label]n|not null|L|T"
+	for _, f := range forms {
+		eng := twig.New()
+		eng.RegisterString("lib", lib)
+		res.Hist["stream:c12-names-that-collide"]++
+		res.Evaluations++
+		c := Case{"stream": "c12-names-that-collide", "scenario": "null parameter named like a macro", "form": f.name, "tpl": f.src}
+		if err := eng.RegisterString("t", f.src); err != nil {
+			res.add(Finding{Kind: "oracle", Where: "c12-names-that-collide/" + f.name, Case: c, Detail: "parse: " + err.Error()})
+			continue
+		}
+		got, err := eng.Render("t", map[string]interface{}{})
+		if err != nil {
+			got = "error: " + err.Error()
+		}
+		if got != want {
+			res.add(Finding{Kind: "oracle", Where: "c12-names-that-collide/null-parameter/" + f.name, Case: c, Expected: want, Observed: got,
+				Detail: "macro field(name, label) next to a macro label(text): the parameter label, unset or passed null, must be null in the body"})
+		}
+	}
+	// an included template imports under the includer's macro name
+	parts := map[string]string{
+		"lib":         "{% macro badge(t, n = 0) %}<span class=\"{{ n }}\">{{ t }}</span>{% endmacro %}{% macro other(t) %}({{ t }}){% endmacro %}",
+		"part-from":   "{% from 'lib' import badge %}p:{{ badge('p', 1) }}",
+		"part-alias":  "{% from 'lib' import other as badge %}p:{{ badge('p') }}",
+		"part-macro":  "{% macro badge(t) %}own{{ t }}{% endmacro %}p:{{ badge('p') }}",
+		"part-import": "{% import 'lib' as badge %}p:{{ badge.other('p') }}",
+	}
+	for _, part := range []string{"part-from", "part-alias", "part-macro", "part-import"} {
+		for _, inc := range []string{"{% include '$' %}", "{% include '$' with {'x': 1} %}", "{% for i in [1, 2] %}{% include '$' %}{% endfor %}", "{% include '$' only %}"} {
+			eng := twig.New()
+			for n, s := range parts {
+				eng.RegisterString(n, s)
+			}
+			src := "{% macro badge(t, n = 9) %}[{{ t }}#{{ n }}]{% endmacro %}" + "{{ badge('a', 1) }}|" + strings.ReplaceAll(inc, "$", part) + "|{{ badge('b', 2) }}{{ _self.badge('c') }}"
+			c := Case{"stream": "c12-names-that-collide", "scenario": "import inside an included template", "included": part, "tpl": src}
+			res.Hist["stream:c12-names-that-collide"]++
+			res.Evaluations++
+			if err := eng.RegisterString("t", src); err != nil {
+				continue
+			}
+			got, err := eng.Render("t", map[string]interface{}{})
+			if err != nil {
+				got = "error: " + err.Error()
+			}
+			if !strings.HasPrefix(got, "[a#1]|") || !strings.HasSuffix(got, "|[b#2][c#9]") {
+				res.add(Finding{Kind: "oracle", Where: "c12-names-that-collide/include/" + part, Case: c, Expected: "[a#1]|...|[b#2][c#9]", Observed: got,
+					Detail: "the includer's own macro badge, called directly and through _self after the include, is no longer the includer's"})
 			}
 		}
 	}
